@@ -5,6 +5,9 @@
 //!   zigzag / uvarint   variable-width length-like integers (thrift, Avro, protobuf)
 //!   meta    other structured metadata (flatbuffer tables, thrift field headers, strings, schemas)
 //!   body    payload (IPC buffers, Parquet page data, Avro block data)
+//!   enc     one of the first bytes of an uncompressed Parquet page body: the headers / length blocks of the
+//!           value encodings (DELTA_* block headers and first values, RLE / PLAIN length prefixes, the
+//!           dictionary bit width, level lengths)
 //!   line    one line of a text format
 //! `grp` numbers the enclosing frame (message, page, block, line); `encl` points to the region holding the
 //! length of the enclosing container when the plan may keep it consistent (Parquet footer length).
@@ -40,6 +43,9 @@ pub struct BaseFile {
     pub extra: Extra,
     /// used by the TLC-generated structural plans of the quick tier
     pub gen_quick: bool,
+    /// quick tier: "" = every region gets plans, otherwise only the regions of this kind (the "encoding
+    /// zoo" Parquet files exist for the heads of their page bodies)
+    pub focus: &'static str,
 }
 
 pub fn apis(fmt: &str) -> &'static [&'static str] {
@@ -47,7 +53,7 @@ pub fn apis(fmt: &str) -> &'static [&'static str] {
         "ipc_file" => &["FileReader", "FileDecoder"],
         "ipc_stream" => &["StreamReader", "StreamDecoder"],
         "flight" => &["FlightStream", "flight_utils"],
-        "parquet" => &["arrow_reader", "metadata", "pages", "rows", "arrow_index"],
+        "parquet" => &["arrow_reader", "rows", "metadata", "pages", "arrow_index"],
         "avro_ocf" => &["Reader"],
         "avro_soe" => &["Decoder"],
         "csv" => &["Reader", "infer"],
@@ -302,6 +308,8 @@ pub struct PqOpts {
     pub enc: Option<&'static str>, // "delta" | "bss" | "plain"
     pub stats_page: bool,
     pub bloom: bool,
+    /// rows per data page
+    pub page_rows: usize,
 }
 
 pub fn parquet_write(batches: &[RecordBatch], o: &PqOpts) -> Option<Vec<u8>> {
@@ -314,8 +322,8 @@ pub fn parquet_write(batches: &[RecordBatch], o: &PqOpts) -> Option<Vec<u8>> {
         .set_dictionary_enabled(o.dict)
         .set_writer_version(if o.v2 { WriterVersion::PARQUET_2_0 } else { WriterVersion::PARQUET_1_0 })
         .set_compression(o.comp)
-        .set_data_page_row_count_limit(4)
-        .set_write_batch_size(2)
+        .set_data_page_row_count_limit(o.page_rows)
+        .set_write_batch_size(o.page_rows.min(2).max(if o.page_rows > 4 { o.page_rows } else { 2 }))
         .set_max_row_group_row_count(Some(6))
         .set_bloom_filter_enabled(o.bloom)
         .set_statistics_enabled(if o.stats_page { EnabledStatistics::Page } else { EnabledStatistics::Chunk });
@@ -326,6 +334,8 @@ pub fn parquet_write(batches: &[RecordBatch], o: &PqOpts) -> Option<Vec<u8>> {
                 ("delta", DataType::Utf8) => Some(Encoding::DELTA_BYTE_ARRAY),
                 ("delta", DataType::Binary) => Some(Encoding::DELTA_LENGTH_BYTE_ARRAY),
                 ("delta", DataType::Boolean) => Some(Encoding::RLE),
+                ("delta", DataType::FixedSizeBinary(_)) => Some(Encoding::DELTA_BYTE_ARRAY),
+                ("bss", DataType::Binary) => Some(Encoding::DELTA_BYTE_ARRAY),
                 ("bss", DataType::Int32 | DataType::Int64 | DataType::Float64 | DataType::Float32 | DataType::FixedSizeBinary(_)) => Some(Encoding::BYTE_STREAM_SPLIT),
                 ("bss", DataType::Utf8) => Some(Encoding::DELTA_LENGTH_BYTE_ARRAY),
                 _ => None,
@@ -343,6 +353,9 @@ pub fn parquet_write(batches: &[RecordBatch], o: &PqOpts) -> Option<Vec<u8>> {
     w.close().ok()?;
     Some(buf)
 }
+
+/// how many leading bytes of an uncompressed page body are mapped as `enc` regions
+const ENC_HEAD: usize = 5;
 
 fn parquet_regions(b: &[u8]) -> Vec<Region> {
     use parquet::file::metadata::{PageIndexPolicy, ParquetMetaDataReader};
@@ -363,6 +376,11 @@ fn parquet_regions(b: &[u8]) -> Vec<Region> {
                 c.claim(p, hend, "meta", g);
                 c.toks(&toks, g);
                 c.claim(hend, (hend + comp).min(end), "body", g);
+                if col.compression() == parquet::basic::Compression::UNCOMPRESSED {
+                    for q in hend..(hend + comp.min(ENC_HEAD)).min(end) {
+                        c.claim(q, q + 1, "enc", g);
+                    }
+                }
                 p = hend + comp;
             }
             for (o, l) in [(col.column_index_offset(), col.column_index_length()), (col.offset_index_offset(), col.offset_index_length())] {
@@ -568,7 +586,8 @@ fn base(fmt: &'static str, name: &str, bytes: Vec<u8>, extra: Extra, gen_quick: 
         "csv" | "json" => line_regions(&bytes),
         _ => vec![],
     };
-    BaseFile { fmt, name: name.to_string(), bytes, regions, extra, gen_quick }
+    let focus = if fmt == "parquet" && name.starts_with("zoo_") { "enc" } else { "" };
+    BaseFile { fmt, name: name.to_string(), bytes, regions, extra, gen_quick, focus }
 }
 
 fn csv_text(rng: &mut Rng) -> (Vec<u8>, SchemaRef) {
@@ -695,13 +714,30 @@ pub fn all(seed: u64, thorough: bool) -> Vec<BaseFile> {
     let pq = batches_of(&mut rng, &pq_cols, &[5, 3]);
     let pq2_cols = [("k", DataType::Int64, false), ("s", DataType::Utf8, true), ("x", DataType::FixedSizeBinary(4), true), ("bin", DataType::Binary, true)];
     let pq2 = batches_of(&mut rng, &pq2_cols, &[5, 3]);
-    let o = |dict, v2, comp, enc, stats_page, bloom| PqOpts { dict, v2, comp, enc, stats_page, bloom };
+    // the "encoding zoo": every value encoding that has its own decoder, for byte-array and fixed-width
+    // columns, in small uncompressed files with required columns (no levels: a page body starts with the
+    // encoding's own header / length block)
+    let zoo_cols = [
+        ("i", DataType::Int32, false),
+        ("k", DataType::Int64, false),
+        ("s", DataType::Utf8, false),
+        ("bin", DataType::Binary, false),
+        ("b", DataType::Boolean, false),
+        ("f", DataType::Float64, false),
+        ("x", DataType::FixedSizeBinary(4), false),
+    ];
+    let zoo = batches_of(&mut rng, &zoo_cols, &[5]);
+    let o = |dict, v2, comp, enc, stats_page, bloom| PqOpts { dict, v2, comp, enc, stats_page, bloom, page_rows: 4 };
+    let z = |dict, v2, enc| PqOpts { dict, v2, comp: PC::UNCOMPRESSED, enc, stats_page: false, bloom: false, page_rows: 64 };
     let mut pqs: Vec<(&str, &Vec<RecordBatch>, PqOpts, bool)> = vec![
         ("plain", &pq, o(false, false, PC::UNCOMPRESSED, None, false, false), true),
         ("dict_snappy_v2", &pq2, o(true, true, PC::SNAPPY, None, true, false), false),
-        ("delta_zstd", &pq, o(false, true, PC::ZSTD(Default::default()), Some("delta"), true, false), false),
+        ("zoo_dict", &zoo, z(true, false, None), true),
+        ("zoo_delta", &zoo, z(false, true, Some("delta")), true),
+        ("zoo_bss", &zoo, z(false, false, Some("bss")), true),
     ];
     if thorough {
+        pqs.push(("delta_zstd", &pq, o(false, true, PC::ZSTD(Default::default()), Some("delta"), true, false), false));
         pqs.push(("bss_gzip", &pq2, o(false, false, PC::GZIP(Default::default()), Some("bss"), false, true), false));
         pqs.push(("dict_brotli", &pq, o(true, false, PC::BROTLI(Default::default()), None, true, true), false));
         pqs.push(("delta_lz4", &pq2, o(false, true, PC::LZ4, Some("delta"), false, false), false));
@@ -732,7 +768,7 @@ pub fn all(seed: u64, thorough: bool) -> Vec<BaseFile> {
         }
     }
     if let Some((bytes, regions, store)) = avro_soe(&asch, &ab) {
-        out.push(BaseFile { fmt: "avro_soe", name: "mixed".into(), bytes, regions, extra: Extra::Soe(store), gen_quick: true });
+        out.push(BaseFile { fmt: "avro_soe", name: "mixed".into(), bytes, regions, extra: Extra::Soe(store), gen_quick: true, focus: "" });
     }
 
     // ---- text
